@@ -434,3 +434,24 @@ def canon_guard(test, pol=True):
             continue
         break
     return ast.unparse(test), pol
+
+
+def guard_conjuncts_set(pairs):
+    """frozenset of canonical (text, polarity) conjuncts of a list of guards: a positive conjunction `a and b` counts as its
+    members, negations are moved out of the tests (canon_guard) - so nested ifs, one combined test and the guard clause
+    `if not (a and b): return` all give the same set."""
+    out = set()
+    work = list(pairs)
+    while work:
+        t, p = work.pop()
+        if isinstance(t, str):
+            t = ast.parse(t, mode="eval").body
+        txt, pol = canon_guard(t, p)
+        node = ast.parse(txt, mode="eval").body
+        if pol and isinstance(node, ast.BoolOp) and isinstance(node.op, ast.And):
+            work.extend((v, True) for v in node.values)
+        elif not pol and isinstance(node, ast.BoolOp) and isinstance(node.op, ast.Or):
+            work.extend((v, False) for v in node.values)
+        else:
+            out.add((txt, pol))
+    return frozenset(out)
